@@ -138,6 +138,8 @@ impl<T> DistributionSender<T> {
 
 impl<T> Clone for DistributionSender<T> {
     fn clone(&self) -> Self {
+        #[cfg(datafusion_verif)]
+        datafusion_common::verif::sync_point("distributor_channels:141");
         self.channel.n_senders.fetch_add(1, Ordering::SeqCst);
 
         Self {
@@ -149,6 +151,8 @@ impl<T> Clone for DistributionSender<T> {
 
 impl<T> Drop for DistributionSender<T> {
     fn drop(&mut self) {
+        #[cfg(datafusion_verif)]
+        datafusion_common::verif::sync_point("distributor_channels:152");
         let n_senders_pre = self.channel.n_senders.fetch_sub(1, Ordering::SeqCst);
         // is the last copy of the sender side?
         if n_senders_pre > 1 {
@@ -217,6 +221,8 @@ impl<T> Future for SendFuture<'_, T> {
 
             // does ANY receiver need data?
             // if so, allow sender to create another
+            #[cfg(datafusion_verif)]
+            datafusion_common::verif::sync_point("distributor_channels:220");
             if this.gate.empty_channels.load(Ordering::SeqCst) == 0 {
                 let mut guard = this.gate.send_wakers.lock();
                 if let Some(send_wakers) = &mut *guard {
@@ -272,6 +278,8 @@ impl<T> Drop for DistributionReceiver<T> {
 
         // See `DistributedSender::drop` for an explanation of the drop order and when the "empty channels" counter is
         // decremented.
+        #[cfg(datafusion_verif)]
+        datafusion_common::verif::sync_point("distributor_channels:275");
         if data.is_empty() && (self.channel.n_senders.load(Ordering::SeqCst) > 0) {
             // channel is gone, so we need to clear our signal
             self.gate.decr_empty_channels();
@@ -305,6 +313,8 @@ impl<T> Future for RecvFuture<'_, T> {
                 // change "empty" signal for this channel?
                 if data.is_empty() && channel_state.recv_wakers.is_some() {
                     // update counter
+                    #[cfg(datafusion_verif)]
+                    datafusion_common::verif::sync_point("distributor_channels:308");
                     let old_counter =
                         this.gate.empty_channels.fetch_add(1, Ordering::SeqCst);
 
@@ -313,6 +323,8 @@ impl<T> Future for RecvFuture<'_, T> {
                         let mut guard = this.gate.send_wakers.lock();
 
                         // check after lock to see if we should still change the state
+                        #[cfg(datafusion_verif)]
+                        datafusion_common::verif::sync_point("distributor_channels:316");
                         if this.gate.empty_channels.load(Ordering::SeqCst) > 0 {
                             guard.take().unwrap_or_default()
                         } else {
@@ -450,12 +462,16 @@ impl Gate {
     }
 
     fn decr_empty_channels(&self) {
+        #[cfg(datafusion_verif)]
+        datafusion_common::verif::sync_point("distributor_channels:453");
         let old_count = self.empty_channels.fetch_sub(1, Ordering::SeqCst);
 
         if old_count == 1 {
             let mut guard = self.send_wakers.lock();
 
             // double-check state during lock
+            #[cfg(datafusion_verif)]
+            datafusion_common::verif::sync_point("distributor_channels:459");
             if self.empty_channels.load(Ordering::SeqCst) == 0 && guard.is_none() {
                 *guard = Some(Vec::new());
             }
